@@ -37,7 +37,7 @@ View == <<cache, cfg, drivers, router, store, phase, a, ncalls, isProbe, seen, p
 
 Absent == "absent"      \* key not in CACHED_CONFIG
 NoneV  == "none"        \* Python None (key missing in the config dict, get_config's default)
-Uninit == "uninit"      \* jesse.services.api not imported yet
+Uninit == {"uninit"}    \* api.drivers while jesse.services.api is not imported yet (afterwards: a set of exchange names)
 NA     == "n/a"
 
 Probe == [ex |-> PEx, typ |-> PTyp, lev |-> PLev, mode |-> PMode, fee |-> PFee, bal |-> PBal,
@@ -172,12 +172,14 @@ StoreResetAtStart ==
         /\ cache' = ExchangeFill(cache, g, router[1])
   /\ phase' = "reset" /\ UNCHANGED <<drivers, router, a, ncalls, isProbe, seen, pre, hist, excs>>
 
-\* ---- l.105-122: validate_routes, init_storage, spacing assertion.  With DriversRebuilt the drivers
-\* of an already imported services.api are re-created here for the exchanges of this session.
+\* ---- l.105-122: validate_routes, init_storage, spacing assertion.  With DriversRebuilt the session
+\* (re-)initiates the API drivers for its own exchanges right after router.initiate (importing
+\* services.api if need be; drivers of earlier sessions stay, they are harmless)
 InitStorage ==
   /\ Goes("reset")
-  /\ IF DriversRebuilt /\ drivers # Uninit
-     THEN /\ drivers' = Lookup0(cache, cfg, "consEx") /\ cache' = Fill0(cache, cfg, "consEx")
+  /\ IF DriversRebuilt
+     THEN /\ drivers' = (drivers \ Uninit) \cup {Lookup0(cache, cfg, "consEx")}
+          /\ cache' = Fill0(cache, cfg, "consEx")
      ELSE UNCHANGED <<drivers, cache>>
   /\ phase' = "storage" /\ UNCHANGED <<cfg, router, store, a, ncalls, isProbe, seen, pre, hist, excs>>
 
@@ -192,7 +194,7 @@ InjectWarmup ==
 PrepareRoutes ==
   /\ Goes("warmed")
   /\ IF drivers = Uninit
-     THEN /\ drivers' = Lookup0(cache, cfg, "consEx") /\ cache' = Fill0(cache, cfg, "consEx")
+     THEN /\ drivers' = {Lookup0(cache, cfg, "consEx")} /\ cache' = Fill0(cache, cfg, "consEx")
      ELSE UNCHANGED <<drivers, cache>>
   /\ phase' = "prepared" /\ UNCHANGED <<cfg, router, store, a, ncalls, isProbe, seen, pre, hist, excs>>
 
@@ -213,8 +215,8 @@ FirstStep ==
 \* ---- entry order: api.market_order returns None when the exchange has no driver (api.py l.43) ---
 Submit ==
   /\ Goes("stepping")
-  /\ store' = [store EXCEPT !.traded = (a.ex = drivers)]
-  /\ seen' = IF isProbe THEN [seen EXCEPT !.driver = IF a.ex = drivers THEN "yes" ELSE "no"] ELSE seen
+  /\ store' = [store EXCEPT !.traded = (a.ex \in drivers)]
+  /\ seen' = IF isProbe THEN [seen EXCEPT !.driver = IF a.ex \in drivers THEN "yes" ELSE "no"] ELSE seen
   /\ phase' = "trading" /\ UNCHANGED <<cache, cfg, drivers, router, a, ncalls, isProbe, pre, hist, excs>>
 
 \* ---- a trade closes; a strategy that looks at self.metrics makes ClosedTrade.fee read the memoised
@@ -257,7 +259,7 @@ Crash ==
   /\ Return("exc") /\ UNCHANGED <<cache, cfg, drivers, router, store, ncalls, isProbe, seen, pre, hist>>
 
 EarlierCall == phase = "idle" /\ \E x \in Menu : Begin(x, FALSE)
-ProbeCall   == Begin(Probe, TRUE)
+ProbeCall   == phase = "idle" /\ Begin(Probe, TRUE)
 Next == \/ EarlierCall \/ ProbeCall
         \/ SetConfig \/ SetRoutes \/ StoreResetAtStart \/ InitStorage \/ InjectWarmup \/ PrepareRoutes
         \/ FirstStep \/ Submit \/ CloseTrade \/ Outputs \/ ResetConfig \/ StoreResetAtEnd \/ Crash
@@ -269,5 +271,5 @@ TypeOK == /\ phase \in {"idle", "mode", "configured", "routed", "reset", "storag
                         "trading", "closed", "done", "resetcfg", "probed"}
           /\ ncalls \in 0..MaxCalls /\ Len(hist) = ncalls
           /\ (phase \in {"idle", "probed"} <=> a = Null)
-          /\ drivers \in Exs \cup {Uninit, NoneV}
+          /\ (drivers = Uninit \/ drivers \subseteq Exs)
 =============================================================================
